@@ -4,7 +4,7 @@ import json, glob, os, sys, collections
 VERIF = os.path.dirname(os.path.dirname(os.path.abspath(__file__)))
 show = sys.argv[1] if len(sys.argv) > 1 else None
 tot = collections.Counter()
-for f in sorted(glob.glob(os.path.join(VERIF, '.scratch', 'mut', 'C*.jsonl'))):
+for f in sorted(glob.glob(os.path.join(VERIF, '.scratch', os.environ.get('MUTDIR', 'mut'), 'C*.jsonl'))):
     prop = os.path.basename(f)[:-6]
     rows = list({(r['file'], r['line'], r['col'], r['new']): r for r in (json.loads(l) for l in open(f))}.values())
     c = collections.Counter(r['verdict'] for r in rows)
